@@ -1,6 +1,7 @@
 """C15 - All supported x86 build configurations compute identical results."""
 from vlib import *
 import p_text as T
+import p_od as O
 
 ALL = ["prod-avx2", "prod-sse", "prod-dyn", "asan-avx2", "asan-sse", "asan-dyn"]
 
@@ -52,11 +53,40 @@ def run(tier):
                                   case=d, replay=dict(harness="rt_parse.cpp", row=row)))
         ctx.log(f"corpus {name}: {len(rows)} texts digested in {len(builds)} builds; disagreements so far {len(ctx.fail)}")
         ctx.samples.append(dict(corpus=name, **T.describe(rows[0])))
+    # on-demand half: GetOnDemand / ParseOnDemand results across the six binaries
+    F = T.fmtset
+    odrecs = O.gen_od(ctx, dict(MaxNodes=3, Pool=3, Layouts=F([0, 2]), Wide="FALSE", D=2), "Gen_OnDemand_c15")
+    odrecs += O.gen_od(ctx, dict(MaxNodes=1, Pool=0, Layouts=F([0, 3]), Wide="TRUE", D=1), "Gen_OnDemand_c15w")
+    AS = list(range(0, 70, 3 if q else 1))
+    cfg = f"CONSTANTS AS = {F(AS)} BS = {F([0, 1, 31, 33])}\nINIT InitOD\nNEXT NextOD\nINVARIANT EmitOD\nINVARIANT AllValid\nCHECK_DEADLOCK FALSE\n"
+    odrecs += ctx.tlc_emit("Gen_OnDemandStr", cfg=cfg, timeout=1500, xmx="8g")
+    odrows = O.rows_c10(odrecs)
+    ofails, odigs = O.replay_od(ctx, "c10", odrows, builds, [0, 1, 17, 33], want_digest=True, name="c15od", shards=2)
+    refm = {l.split("\t")[0]: l for l in odigs.get(builds[0], [])}
+    for b in builds[1:]:
+        for l in odigs.get(b, []):
+            k = l.split("\t")[0]
+            if k in refm and refm[k] != l:
+                row = odrows[int(k)]
+                ctx.add_fail(dict(property="C15", kind="od-digest", sig=f"od-digest:{b}", shape=dict(kind="od-digest", build=b), build=b,
+                                  detail=f"on-demand (found, code, slice) differs: {builds[0]} -> {refm[k].split(chr(9))[1:]}; {b} -> {l.split(chr(9))[1:]}; text={O.describe(row)['text_repr'][:100]} path={row[2]}",
+                                  case=O.describe(row), replay=dict(harness="rt_ondemand.cpp", mode="c10", row=row)))
+    per = {}
+    for b, idx, kind, detail in ofails:
+        per.setdefault((idx, kind.split(":", 1)[-1]), set()).add(b)
+    for (idx, kind), bs in per.items():
+        if len(bs) < len(builds):
+            row = odrows[idx]
+            ctx.add_fail(dict(property="C15", kind="partial-failure", sig=f"od-partial:{kind}:{'+'.join(sorted(bs))}", shape=dict(kind="partial-failure"),
+                              build="+".join(sorted(bs)), detail=f"on-demand oracle failure '{kind}' only in builds {sorted(bs)}; text={O.describe(row)['text_repr'][:100]} path={row[2]}",
+                              case=O.describe(row), replay=dict(harness="rt_ondemand.cpp", mode="c10", row=row)))
+    total += len(odrows)
+    ctx.traces += len(odrows) * len(builds)
+    ctx.log(f"on-demand: {len(odrows)} (text, path) cases digested in {len(builds)} builds; disagreements so far {len(ctx.fail)}")
     ctx.extra.update(replayed_cases=total, builds=builds, alignments=pads)
     ctx.assumptions += ["the R-models do not mention the vector width, so the specified result is configuration independent",
                         "on this CPU the runtime-dispatch resolver selects the AVX2 clones; SSE clones run only in the static build",
                         "error code is excluded from the digest for texts whose R-model fault is inside a string literal"]
-    # the on-demand half of the digests is compared by the C10 check in the same six builds
     ctx.finish(rule="every TLC-generated text is parsed in six binaries {prod,asan} x {avx2,sse,dyn}; per text the digest "
                     "(accepted?, error class unless string fault, accessor-walk hash, Dump hash) must be identical; "
                     "non-trivial = distinct text", nontrivial=total)
